@@ -178,6 +178,24 @@ class ParserRaised(Exception):
     pass
 
 
+class _PicklableBin(object):
+    """grammar callables for the worker-process path (multiprocessing pickles them): synthetic grammars are plain tables"""
+
+    def __init__(self, g):
+        self.B = g['B']
+
+    def __call__(self, x, y):
+        return list(self.B.get((x, y), []))
+
+
+class _PicklableUn(object):
+    def __init__(self, g):
+        self.U = g['U']
+
+    def __call__(self, x):
+        return list(self.U.get(x, []))
+
+
 _junk = []
 
 
@@ -245,9 +263,16 @@ def run_instance(h, g, n, tag8, dep8, cfg, eid):
             docs = [ltoks(j) for j in range(nlong_before)] + [dtoks] + [ltoks(5) for _ in range(nlong_mid)] + [toks] + [ltoks(9) for _ in range(nlong_after)]
             scs = ([lsc() for _ in range(nlong_before)] + [dsc()] + [lsc() for _ in range(nlong_mid)] + [ScoringResult(tag.copy(), dep.copy())]
                    + [lsc() for _ in range(nlong_after)])
-            allres = h.parsing.run(docs, scs, list(lex), list(g['roots']), g['bin'], g['un'], **kw)
+            pool = len(decoy) > 5 and decoy[5]
+            if pool:
+                # the worker-process path: every sentence is a chunk of its own (the searches run in other processes: no pops)
+                allres = h.parsing.run(docs, scs, list(lex), list(g['roots']), _PicklableBin(g), _PicklableUn(g), processes=2, max_chunk_size=1, **kw)
+            else:
+                allres = h.parsing.run(docs, scs, list(lex), list(g['roots']), g['bin'], g['un'], **kw)
             res = allres[nlong_before + 1 + nlong_mid] if len(allres) == len(docs) else []
-            pops = h.rt.pops()[n_d:]
+            pops = [] if pool else h.rt.pops()[n_d:]
+            if pool:
+                cfg = dict(cfg, maxstep=10 ** 7)
             # a sentence over max_length must get the placeholder; if one got anything else, that result is what is sent to
             # the trace specification (as the result for the 7 words of that sentence)
             for j, (dtk, r) in enumerate(zip(docs, allres)):
@@ -362,7 +387,8 @@ def make_specs(prop, tier, rng):
         elif rng.random() < 0.25:
             dn = rng.choice([1, 2, 3])
             dt, dd = make_scores(rng, dn, len(g['lex']), 'small')
-            cfg = dict(cfg, decoy=(dn, dt, dd, rng.choice([0, 0, 1, 2]), rng.choice([0, 1])))
+            cfg = dict(cfg, decoy=(dn, dt, dd, rng.choice([0, 0, 1, 2]), rng.choice([0, 1]),
+                                   prop in ('C02', 'C09', 'C12') and g['kind'].startswith('synthetic') and rng.random() < 0.12))
         specs.append((g, n, tag8, dep8, cfg))
     return specs
 
